@@ -266,8 +266,8 @@ Proof.
   - destruct (find_proc _ w); [|discriminate].
     eapply PRE_RL; [exact P | | eapply on_remove_worker_KL; exact H].
     eapply on_remove_worker_RL; [apply P | apply QSTMT_QA; exact HQ | exact HW | exact H].
-  - eapply handle_submit_array_D; [exact F | exact P | exact HC' | | exact H]. destruct entries; exact Hwf.
-  - destruct (bad_graph_rq _ _); [inversion H; subst; eapply PRE_frame; [| |exact P]; [reflexivity | apply KL_same; reflexivity]|]. eapply handle_submit_graph_D; eassumption.
+  - destruct (bad_submit_lengths _ _); [inversion H; subst; eapply PRE_frame; [| |exact P]; [reflexivity | apply KL_same; reflexivity]|]. eapply handle_submit_array_D; [exact F | exact P | exact HC' | | exact H]. destruct entries; exact Hwf.
+  - destruct (bad_graph_rq _ _); [inversion H; subst; eapply PRE_frame; [| |exact P]; [reflexivity | apply KL_same; reflexivity]|]. destruct (dead_dep _ _ _); [inversion H; subst; eapply PRE_frame; [| |exact P]; [reflexivity | apply KL_same; reflexivity]|]. eapply handle_submit_graph_D; eassumption.
   - eapply handle_open_D; eassumption.
   - eapply handle_close_D; eassumption.
   - eapply handle_cancel_D; eassumption.
